@@ -172,6 +172,9 @@ func runHarness(verif, repo, prop, harness string, rf *ReplayFile) (string, bool
 		<-done
 	}
 	s := string(out)
+	if strings.Contains(string(src), "// race: on") && strings.Contains(s, "WARNING: DATA RACE") {
+		return "REPRODUCED (race detector): \n" + s, true
+	}
 	return s, strings.Contains(s, "REPRODUCED")
 }
 
